@@ -8,7 +8,7 @@ cd "$(dirname "$(readlink -f "$0")")/.." || exit 2
 [ -f mutants/index.json ] || python3 tools/make-mutants.py || exit 2
 IDS="$*"
 [ -z "$IDS" ] && IDS=$(jq -r '.[].id' mutants/index.json)
-ROWS=""; BAD=0
+ROWFILE=$(mktemp /tmp/selftest-rows.XXXXXX); BAD=0
 for ID in $IDS; do
 	PROPS=$(jq -r ".[] | select(.id==\"$ID\") | .properties | join(\" \")" mutants/index.json)
 	NEG=$(jq -r ".[] | select(.id==\"$ID\") | .negative_control" mutants/index.json)
@@ -29,9 +29,11 @@ for ID in $IDS; do
 		if [ "$NEG" = true ]; then WANT=0; else WANT=1; fi
 		if [ "${RC:-2}" = "$WANT" ]; then V=ok; else V=UNEXPECTED; BAD=1; fi
 		echo "$ID $P want_exit=$WANT got_exit=${RC:-2} $V  [$SIG]  ($NOTE)"
-		ROWS="$ROWS{\"mutant\":\"$ID\",\"property\":\"$P\",\"negative_control\":$NEG,\"expected_exit\":$WANT,\"exit\":${RC:-2},\"verdict\":\"$V\",\"first_signature\":\"$SIG\",\"unit_tests\":\"$UNIT\",\"note\":$(echo "$NOTE" | jq -R .)},"
+		jq -n --arg m "$ID" --arg p "$P" --argjson neg "$NEG" --argjson want "$WANT" --argjson rc "${RC:-2}" --arg v "$V" --arg sig "$SIG" --arg unit "$UNIT" --arg note "$NOTE" \
+			'{mutant: $m, property: $p, negative_control: $neg, expected_exit: $want, exit: $rc, verdict: $v, first_signature: $sig, unit_tests: $unit, note: $note}' >> "$ROWFILE"
 	done
 done
 mkdir -p evidence
-echo "{\"tool\":\"selftest-mutants\",\"rows\":[${ROWS%,}],\"ok\":$([ $BAD = 0 ] && echo true || echo false)}" | jq . > "evidence/selftest${SELFTEST_TAG:-}.json"
+jq -s --argjson ok "$([ $BAD = 0 ] && echo true || echo false)" '{tool: "selftest-mutants", rows: ., ok: $ok}' "$ROWFILE" > "evidence/selftest${SELFTEST_TAG:-}.json"
+rm -f "$ROWFILE"
 exit $BAD
